@@ -15,13 +15,15 @@
 void *nni_id_get(nni_id_map *m, uint64_t id)
 __CPROVER_requires(IDM_WF_PRE(m))
 __CPROVER_assigns(g_found)
+/* ASSUMED (invariant of the callers, not a property of idhash): the value
+ * stored under `id`, if any, is the object g_reg, which the contract of the
+ * function under proof describes (a valid socket / context / pipe / endpoint).
+ * (First, because the pointer predicate fixes the value of the result.) */
+__CPROVER_ensures(RV == NULL || __CPROVER_pointer_equals(RV, g_reg))
+/* the text proved by unit idhash_get */
 __CPROVER_ensures(RV == NULL ==> g_found == IDM_NOTFOUND)
 __CPROVER_ensures(RV != NULL ==> (g_found < m->id_cap && m->id_entries[g_found].key == id && m->id_entries[g_found].val == RV))
 __CPROVER_ensures(m->id_count == 0 ==> RV == NULL)
-/* ASSUMED (invariant of the callers, not a property of idhash): the value
- * stored under `id`, if any, is the object g_reg, which the contract of the
- * function under proof describes (a valid socket / context / pipe / endpoint) */
-__CPROVER_ensures(RV != NULL ==> RV == g_reg)
 ;
 /* clang-format on */
 #endif
